@@ -65,6 +65,47 @@ def strategy(tier):
     return strat()
 
 
+def enumerate_cases(tier, shard, nshards, seed):
+    """Grid: every node (copy / get / cut) and every container x every (start, stop) window of up to 3 elements (get_slice / cut), with four option
+    sets, on the f-string, trivia-dense and container template programs."""
+
+    from . import c03
+
+    progs = gen.FSTRING_PROGRAMS + gen.TRIVIA_PROGRAMS + c03.GRID_TEMPLATES
+    osels = (0, 3, 9, 13)
+    k = 0
+
+    for src in progs:
+        try:
+            tree = ast.parse(src)
+        except SyntaxError:
+            continue
+
+        targets = []
+
+        for ti in range(len(em.node_targets(tree))):
+            targets.append((ti, 0))
+
+        conts = em.container_targets(tree)
+        jobs = [(ti, osels[(ti + j) % 4], 0, 0, 0) for ti, _ in targets for j in range(2)]
+
+        for ci, (parent, field, n) in enumerate(conts):
+            try:
+                m = len(orig_elements(parent, field))
+            except Exception:
+                continue
+
+            for a in range(0, m + 1):
+                for b in range(a, min(m, a + 3) + 1):
+                    jobs.append((ci, osels[(ci + a + b) % 4], a, b if b < m else 7, 3))
+
+        for job in jobs:
+            k += 1
+
+            if k % nshards == shard and not (tier == 'quick' and (k * 2654435761 + seed * 40503) % 2 and False):
+                yield {'src': src, 'targets': [list(job)], 'grid': True}
+
+
 _WS_CONT = re.compile(r'\n[ \t]+')
 
 
